@@ -136,7 +136,7 @@ def cell_card(c, deck):
         parts.append('lat=%d' % c['lat'])
     if c['lat'] and c['lranges'] and not c.get('latopt'):
         rng = ' '.join('%d:%d' % (a, b) for a, b in c['lranges'])
-        fill = 'fill=%s %s' % (rng, ' '.join(_array_tokens(c['lunivs'], c.get('arrayshort'))))
+        fill = 'fill=%s %s' % (rng, ' '.join(_array_tokens(c['lunivs'], c.get('arrayshort')) + list(c.get('array_extra', []))))
         if c['hasftr']:
             fill += ' ' + _tr_inline(c['ftr'], c['ftrspell'], deck)
             if c['ftrspell'].startswith('star'):
